@@ -5,6 +5,7 @@
 -/
 import AmiscProofs.BaryDeriv
 import AmiscProofs.TensorDeriv
+import AmiscProofs.GradExact
 
 open Polynomial Finset Lagrange
 
@@ -103,6 +104,39 @@ theorem hessian_cross_is_derivative (st : LState) (x : List Q) (hd : st.grids.le
     (hessT 0 st rows x m n).getD o 0 =
       eval (x.getD n 0) (derivative (slicePoly st x n rows o fun d => if d = m then 1 else 0)) :=
   hess_cross_is_derivative st x hd rows o ho m n hmn hn hg
+
+/-! ## component level (`Component.gradient` / `hessian` = weighted sums over the index set) -/
+
+open Amisc.SE Amisc.GE
+
+/-- one polynomial `P` in `x_m` (all other coordinates frozen) with `predict(x[m:=t]) = P(t)` for all `t`,
+    `jacobian_m(x) = P'(x_m)` and `hessian_mm(x) = P''(x_m)`, for ANY weights and data (single output) -/
+theorem component_jacobian_hessian_are_derivatives (S : List Idx) (c : Idx → ℤ) (st : Idx → LState)
+    (rows : Idx → List (List Q)) (x : List Q) (m : ℕ)
+    (hd : ∀ i ∈ S, (st i).grids.length = x.length) (hm : m < x.length)
+    (hg : ∀ i ∈ S, GoodDim ((st i).grids.getD m []) ((st i).wts.getD m []))
+    (hny : ∀ i ∈ S, ((rows i).head?.map List.length).getD 0 = 1) :
+    (∀ t, (miscSum (S.map fun i => (c i, predictT 0 (st i) (rows i) (x.set m t)))).getD 0 0 =
+      eval t (compSlice S c st rows x m fun _ => 0)) ∧
+    (miscSum (S.map fun i => (c i, gradT 0 (st i) (rows i) x m))).getD 0 0 =
+      eval (x.getD m 0) (derivative (compSlice S c st rows x m fun _ => 0)) ∧
+    (miscSum (S.map fun i => (c i, hessT 0 (st i) (rows i) x m m))).getD 0 0 =
+      eval (x.getD m 0) (derivative (derivative (compSlice S c st rows x m fun _ => 0))) :=
+  component_derivatives S c st rows x m hd hm hg hny
+
+/-- for polynomial models within the surrogate's polynomial space the reported derivatives are the analytic ones -/
+theorem derivatives_exact_for_polynomial_models {na d : ℕ} (S : List Idx) (hnd : S.Nodup)
+    (hlen : ∀ s ∈ S, s.length = na + d) (hdown : ∀ s ∈ S, ∀ j, Idx.le j s = true → j ∈ S)
+    (nodes : ℕ → List Q) (gs : ℕ → ℕ) (hgs : Monotone gs) (hnodes : ∀ k, k < d → (nodes k).Nodup)
+    (st : Idx → LState) (hN : Nested na d nodes gs st S) (f : PolyModel)
+    (hf : ∀ t ∈ f, ∃ l ∈ S, (∀ k, k < d → (t.2 k).degree < gs (Idx.nth l (na + k))) ∧
+      (∀ k, k < d → gs (Idx.nth l (na + k)) ≤ (nodes k).length))
+    (x : List Q) (hx : x.length = d) (m : ℕ) (hm : m < d) :
+    (miscSum (S.map fun i => (IE S i, gradT 0 (st i) (rowsOfPoly (st i) f) x m))).getD 0 0 =
+      eval (x.getD m 0) (derivative (slice f d x m)) ∧
+    (miscSum (S.map fun i => (IE S i, hessT 0 (st i) (rowsOfPoly (st i) f) x m m))).getD 0 0 =
+      eval (x.getD m 0) (derivative (derivative (slice f d x m))) :=
+  derivatives_exact S hnd hlen hdown nodes gs hgs hnodes st hN f hf x hx m hm
 
 /-! non-vacuity: three rational nodes 0, 1, 1/2 -/
 example : Set.InjOn (fun i : Fin 3 => ([0, 1, 1/2] : List ℚ).getD i 0) (Finset.univ : Finset (Fin 3)) := by
